@@ -197,6 +197,57 @@ def report(out, prop, traces, verdicts, findings):
                             'events': [[e['ev'], e.get('c'), e.get('op', e.get('ret', ''))] for e in t['ev'][:25]]})
 
 
+def _free(cfg, init, prog, seed, tid):
+    from .. import freerun
+    return freerun.run_free(cfg, init, prog, seed, tid)
+
+
+def free_running(out, tier, seed):
+    """C05 as stated, with PROCESSES: 2-4 forked processes run short random programs freely on one directory; the merged
+    call / return history (stamped by a shared counter) is checked for linearizability by TLC (LinTrace.tla)."""
+    rng = random.Random(seed * 104729 + 55)
+    alpha = lambda k: [op('set', k=k, v=5, ttl=[], tag=0), op('set', k=k, v=F1, ttl=[], tag=0), op('set', k=k, v=F2, ttl=[], tag=1),
+                       op('add', k=k, v=7, ttl=[], tag=0), op('add', k=k, v=F3, ttl=[], tag=0), op('incr', k=k, d=1, df=[0]),
+                       op('incr', k=k, d=-1, df=[0]), op('get', k=k, fx=0, ft=0, mk='miss'), op('contains', k=k),
+                       op('pop', k=k, fx=0, ft=0), op('delete', k=k, mk='false')]
+    jobs = []
+    for i in range(80 if tier == 'quick' else 2500):
+        nproc = rng.choice([2, 3, 3, 4])
+        prog = {p_: [rng.choice(alpha(rng.choice([KA, KA, KB]))) for _ in range(rng.randint(3, 7))] for p_ in range(1, nproc + 1)}
+        init = rng.choice([[], [op('set', k=KA, v=1, ttl=[], tag=0)], [op('set', k=KA, v=F1, ttl=[], tag=0), op('set', k=KB, v=3, ttl=[], tag=0)]])
+        jobs.append(({'inherit': rng.randrange(2)}, init, prog, seed * 1000 + i, i + 1))
+    traces = pmap(_free, jobs, procs=4)
+    import harness.common as _c
+    old = _c.TRACE_FIELDS
+    _c.TRACE_FIELDS = ('id', 'nc', 'init', 'ev')
+    try:
+        verdicts, st, tr = validate_all('LinTrace.tla', 'LinTrace.cfg', traces, batch_events=3000)
+    finally:
+        _c.TRACE_FIELDS = old
+    out.states += st
+    out.transitions += tr
+    out.traces += len(traces)
+    out.events += sum(len(t['ev']) for t in traces)
+    overlap = 0
+    for t in traces:
+        open_ = 0
+        for e in t['ev']:
+            if e['ev'] == 'call':
+                open_ += 1
+                overlap += 1 if open_ > 1 else 0
+            elif e['ev'] == 'ret':
+                open_ -= 1
+    out.notes['free_running_process_histories'] = len(traces)
+    out.notes['free_running_calls_overlapping_another_call'] = overlap
+    byid = {t['id']: t for t in traces}
+    for tid_, v in sorted(verdicts.items()):
+        if not v['ok']:
+            t = byid[tid_]
+            at = min(v['at'], len(t['ev']))
+            out.violation('free-running processes: %s (event %d: %s) | program=%s' % (v['why'], at, str(t['ev'][at - 1])[:200], str(t['program'])[:300]),
+                          {'cfg': t['cfg'], 'program': t['program'], 'events': t['ev'], 'verdict': v})
+
+
 def run_c05(tier, seed):
     out = Outcome('C05', tier, seed)
     rng = random.Random(seed * 7919 + 5)
@@ -298,6 +349,7 @@ def run_c05(tier, seed):
     report(out, 'C05', traces, verdicts, known_findings('C05'))
     out.notes['programs'] = len(jobs_dfs) + len(jobs_rand)
     out.notes['schedules_enumerated_dfs'] = sum(1 for t in traces if t['id'] <= 10 ** 9) - len(jobs_rand)
+    free_running(out, tier, seed)
     out.assumptions += ['clients are real threads with separate or shared Cache objects; separate OS processes are '
                         'covered by the kill/fork checks and free-running runs, not by the scheduler',
                         'SQLite WAL snapshot isolation and BEGIN IMMEDIATE exclusion (statements inside a held write '
